@@ -240,6 +240,26 @@ def threshold(ctx):
     fn = ctx.repo.func(q)
     nt = [norm(n.value) for n in ast.walk(fn) if isinstance(n, ast.Assign) and norm(n.targets[0]) == 'self.sigs_required']
     ctx.require(nt == ['n_tag - 80'], q, 'sigs_required is derived from the redeem script as %s' % nt, fn)
+    # exactly m signatures are written: inside the block that builds the multisig unlocking script / witness every read of self.signatures
+    # is the slice self.signatures[:self.sigs_required] (Input.signatures keeps every signature that was ever added)
+    blk = [n for n in ast.walk(fn) if isinstance(n, ast.If) and 'len(signatures) >= self.sigs_required' in norm(n.test)]
+    if not blk:
+        ctx.undecided('Input.update_scripts: block that writes the multisig unlocking script not found')
+    parents2 = {}
+    for p in ast.walk(blk[0]):
+        for c in ast.iter_child_nodes(p):
+            parents2[c] = p
+    nreads = 0
+    for a in ast.walk(blk[0]):
+        if isinstance(a, ast.Attribute) and norm(a) == 'self.signatures' and isinstance(a.ctx, ast.Load) and not any(a is x for x in ast.walk(blk[0].test)):
+            nreads += 1
+            par = parents2.get(a)
+            sliced = isinstance(par, ast.Subscript) and par.value is a and isinstance(par.slice, ast.Slice) and par.slice.lower is None and par.slice.upper is not None and norm(par.slice.upper) == 'self.sigs_required'
+            if not sliced:
+                ctx.violate(q, 'the multisig unlocking script / witness is built from `%s`, i.e. from every signature the input holds, not from the first sigs_required' % norm(par if par is not None else a)[:80], a,
+                            'once more than m cosigners have signed (all three of a 2-of-3) the witness carries m+1 signatures: consensus-invalid, while verify() stops counting at m and send() reports success')
+    ctx.saw('multisig unlocking script: %d reads of self.signatures, each sliced to sigs_required' % nreads)
+    ctx.floor(nreads, 1, 'reads of self.signatures in the multisig block')
     q = 'transactions:Input.verify'
     fn = ctx.repo.func(q)
     loops = [n for n in walk_no_nested(fn) if isinstance(n, ast.While)]
@@ -372,6 +392,53 @@ def sig_dedup(ctx):
             if not (used & ident):
                 ctx.violate(q, 'a given signature is dropped as duplicate when `%s`: %s does not identify the signature value (r, s)' % (norm(g.test)[:100], ', '.join('Signature.' + u for u in sorted(used)) or 'the compared value'), g,
                             'signatures handed over as bytes / hex have no public key bound (None): from the second one on they are silently dropped, an m-of-n spend with m >= 3 never completes after a dictionary hand-off')
+
+
+SERIALISATION_FIELDS = ('inputs', 'outputs', 'locktime', 'version', 'network', 'witness_type', 'flag')
+
+
+def _drop_witness_type_canary():
+    from ..core import Canary
+
+    def mutate(tree):
+        for c in ast.walk(tree):
+            if isinstance(c, ast.ClassDef) and c.name == 'WalletTransaction':
+                for f in c.body:
+                    if isinstance(f, ast.FunctionDef) and f.name == 'to_transaction':
+                        for call in ast.walk(f):
+                            if isinstance(call, ast.Call) and isinstance(call.func, ast.Name) and call.func.id == 'Transaction' and len(call.args) >= 22:
+                                del call.args[20:]
+                                return True
+        return False
+    return Canary('saved transaction loses witness type and flag', 'wallets', mutate)
+
+
+@PROP.obligation('C10.file-handoff', canaries=[
+    _drop_witness_type_canary(),
+])
+def file_handoff(ctx):
+    """Hand-off through a file (WalletTransaction.save -> Wallet.transaction_load) goes through WalletTransaction.to_transaction: the plain
+    Transaction it builds receives every field that decides the serialisation and the digest - inputs, outputs, locktime, version, network,
+    witness_type, flag - each bound to the attribute of the same name. A field left to the constructor default (witness_type 'segwit')
+    makes a legacy multisig spend serialise with the BIP144 marker after the round trip through a file."""
+    q = 'wallets:WalletTransaction.to_transaction'
+    fn = ctx.repo.func(q)
+    ti = ctx.repo.func('transactions:Transaction.__init__')
+    ps = [a.arg for a in ti.args.args][1:]
+    calls = [c for c in ast.walk(fn) if isinstance(c, ast.Call) and norm(c.func) == 'Transaction']
+    if len(calls) != 1:
+        ctx.undecided('to_transaction: construction of the plain Transaction not found')
+    c = calls[0]
+    bound = {ps[i]: a for i, a in enumerate(c.args) if i < len(ps)}
+    bound.update({k.arg: k.value for k in c.keywords if k.arg})
+    ctx.saw('to_transaction binds %d of %d constructor parameters; left to defaults: %s' % (len(bound), len(ps), [p for p in ps if p not in bound]))
+    for f in SERIALISATION_FIELDS:
+        if f not in bound:
+            ctx.violate(q, 'the plain Transaction is built without `%s`: it gets the constructor default' % f, c,
+                        'a legacy P2SH multisig spend saved to a file and loaded by the next cosigner is flagged segwit: raw() emits marker, flag and empty witnesses, nodes reject it, while verify() is True')
+        else:
+            exp = 'self.network.name' if f == 'network' else 'self.' + f
+            ctx.match(q, 'constructor argument %s' % f, bound[f], exp, fn, c, 'the exported transaction differs from the one that was signed')
 
 
 @PROP.obligation('C10.raw-handoff')
